@@ -207,7 +207,7 @@ func init() {
 	})
 	register(&PropSpec{
 		ID: "C06",
-		Explanation: "Decided R-SIGORDER, R-DONEGATE, R-SIGCHAN - the signal forwarder starts after the work start is written, runs are registered only on an open client, emitted signals are handed over with a way out and only by the read loop's goroutine. (structural necessary conditions for the absence of lost hand-overs and lost wake-ups in the client): R-ATOMIC - the running flag is cleared only " +
+		Explanation: "Decided R-SIGORDER, R-DONEGATE, R-SIGCHAN - the signal forwarder starts after the work start is written, runs are registered only on an open client, emitted signals are handed over with a way out; every send / close pair on a caller's signal channel is separated by goroutine confinement, the state mutex or the hand-over marker; every close goes with the removal of the table entry; every end of a run closes its channel. (structural necessary conditions for the absence of lost hand-overs and lost wake-ups in the client): R-ATOMIC - the running flag is cleared only " +
 			"in a critical section that also scans the pending table, and set in the section that tested it and starts the read loop; presence-check-then-insert on guarded " +
 			"tables happens in one critical section; R-MUSTPASS - every exit of the read loop has cleared the running flag since the last read; R-PAIR - the result store is " +
 			"followed by Signal in the same critical section and Wait is guarded by a test of the condition; R-WG - Add dominates each go whose goroutine calls Done, Done is " +
